@@ -172,7 +172,27 @@ TaintAfter(m, r) ==
 
 FmtNames == {"html-quote", "url-quote", "url-quote-plus", "url-unquote", "url-unquote-plus",
              "sql-quote", "multi-line", "comma-numeric", "collection-length",
-             "upper", "lower", "capitalize", "strip", "pct"}
+             "upper", "lower", "capitalize", "strip", "pct",
+             "whole-dollars", "dollars-and-cents", "dollars-with-commas", "dollars-and-cents-with-commas"}
+
+\* the money formats:  "$%d" % v  and  "$%.2f" % v  (then thousands_commas for the -with-commas forms); a value that is not a
+\* number makes the % operator fail, and the format then yields the empty string.  Numbers are given by their decimal text with
+\* at most two decimals (so no rounding is involved): %d cuts the decimals off (towards zero), %.2f pads them to two.
+DollarFmts == {"whole-dollars", "dollars-and-cents", "dollars-with-commas", "dollars-and-cents-with-commas"}
+Decimals(s) == IF FirstDot(s) > Len(s) THEN 0 ELSE Len(s) - FirstDot(s)
+IntText(s) == SubSeq(s, 1, FirstDot(s) - 1)
+AllZero(t) == \A i \in 1..Len(t) : Base(t[i]) = 48
+WholeText(s) == LET t == IntText(s) IN
+                IF t # <<>> /\ Base(t[1]) = 45 /\ AllZero(Tail(t)) THEN <<48>>        \* int(-0.5) is 0, not -0
+                ELSE IF t = <<>> THEN <<48>> ELSE t
+CentsText(s) == LET d == Decimals(s) IN
+                IF d = 0 THEN IntText(s) \o <<46, 48, 48>>
+                ELSE IF d = 1 THEN s \o <<48>> ELSE s
+DollarText(f, v) ==
+    IF v.k # "num" THEN <<>>
+    ELSE LET body == IF f \in {"whole-dollars", "dollars-with-commas"} THEN WholeText(v.s) ELSE CentsText(v.s)
+             t == <<36>> \o body
+         IN IF f \in {"dollars-with-commas", "dollars-and-cents-with-commas"} THEN ThousandsCommas(t) ELSE t
 
 FmtMod(f) == CASE f = "html-quote" -> "html_quote" [] f = "url-quote" -> "url_quote"
                [] f = "url-quote-plus" -> "url_quote_plus" [] f = "url-unquote" -> "url_unquote"
@@ -190,7 +210,8 @@ Inputs == [v : Values, mods : ModSets, fmt : Fmts, cf : CFmts, size : Sizes, etc
 Expressible(i) ==
     /\ (i.form = "entity" => i.fmt = "" /\ i.size = -1 /\ ~i.null /\ ~i.missing /\ i.cf = "s"
                              /\ i.mods # {})
-    /\ (i.v.k # "text" => i.fmt \in {"", "url-quote", "url-quote-plus", "comma-numeric", "pct", "html-quote"})
+    /\ (i.v.k # "text" => i.fmt \in {"", "url-quote", "url-quote-plus", "comma-numeric", "pct", "html-quote"} \cup DollarFmts)
+    /\ (i.fmt \in DollarFmts => i.v.k \in {"text", "num"} /\ (i.v.k = "num" => Decimals(i.v.s) <= 2))
     /\ (i.v.k \notin {"text", "num"} => i.mods \subseteq {"html_quote", "newline_to_br"})
     /\ (i.v.k = "num" => i.mods \cap {"sql_quote"} = {})
     /\ (i.fmt = "collection-length" => i.v.k = "text")
@@ -243,6 +264,7 @@ Fmt ==
        IF f = "" THEN UNCHANGED <<val, tnt>>
        ELSE IF f = "html-quote" /\ tnt THEN UNCHANGED <<val, tnt>>     \* quoted at the end anyway
        ELSE IF f = "collection-length" THEN val' = Digits(Len(val)) /\ tnt' = FALSE
+       ELSE IF f \in DollarFmts THEN val' = DollarText(f, inp.v) /\ tnt' = FALSE
        ELSE IF f = "strip" THEN val' = Strip(val) /\ UNCHANGED tnt
        ELSE IF f = "pct" THEN val' = <<91>> \o val \o <<93>> /\ UNCHANGED tnt  \* fmt="[%s]"
        ELSE /\ val' = ApplyT(FmtMod(f), val, tnt)
